@@ -64,6 +64,17 @@ def case_domain(pw):
     return True
 
 
+def unrebuildable(s):
+    """contains a letter that is neither its own lower-case form nor that form's upper case (U+0130, U+01C5, ...):
+    the guesser builds words from lower-case values and U/L masks only"""
+    for c in s:
+        if c.isalpha():
+            lo = c.lower()
+            if c != lo and c != lo.upper():
+                return True
+    return False
+
+
 def run_guesser(rdir, skip_brute, cap=60000, expand_m=False):
     """returns (map string -> list of probs, total probability mass, n guesses, error)"""
     from lib_guesser.priority_queue import PcfgQueue
@@ -165,6 +176,54 @@ def make_scorer(rdir, limit=0):
     return sc
 
 
+def scorer_cli(rdir, enc, cands, first, limit):
+    """password_scorer.main() with -i/-o on the scratch disk; returns None or (kind, detail)"""
+    import sys
+    import password_scorer
+    wr = scratch.worker_root()
+    scratch.point_tools_at(wr, ("password_scorer",))
+    usable = [c for c in cands if c == c.strip("\r\n") and not (c.startswith("$HEX[") and c.endswith("]"))]
+    inp = os.path.join(wr, "score_in.txt")
+    outp = os.path.join(wr, "score_out.txt")
+    with open(inp, "wb") as f:
+        f.write("".join(c + "\n" for c in usable).encode(enc, "surrogateescape"))
+    old = sys.argv
+    sys.argv = ["password_scorer.py", "-r", os.path.basename(rdir), "-i", inp, "-o", outp, "-l", repr(limit), "-m", "9"]
+    try:
+        with guesser.streams():
+            try:
+                password_scorer.main()
+            except SystemExit:
+                pass
+    except Exception:
+        import traceback
+        return ("scorer_cli_raised", {"exception": traceback.format_exc()[-700:]})
+    finally:
+        sys.argv = old
+    try:
+        text = open(outp, "rb").read().decode(enc, "surrogateescape")
+    except OSError:
+        return ("scorer_cli_wrote_no_output", {})
+    rows = [l.split("\t") for l in text.split("\n") if l != ""]
+    # the reader may legitimately skip candidates it considers invalid; every row written must match the library
+    want = {c: first[c] for c in usable}
+    seen = []
+    for row in rows:
+        if len(row) != 4:
+            return ("scorer_cli_row_malformed", {"row": row[:6]})
+        pw, cat, p, omen = row
+        if pw not in want:
+            return ("scorer_cli_scored_unknown_string", {"string": pw})
+        w = want[pw]
+        if cat != w[1] or float(p) != float(w[2]) or int(omen) != int(w[3]):
+            return ("scorer_cli_differs_from_library", {"string": pw, "cli": row[1:], "library": repr(w[1:])})
+        seen.append(pw)
+    missing = [c for c in usable if c not in seen and not any(ord(ch) < 0x20 or ch in "\u2028\u2029\u0085" for ch in c)]
+    if missing:
+        return ("scorer_cli_skipped_candidate", {"string": missing[0], "rows": len(rows), "candidates": len(usable)})
+    return None
+
+
 def run_c13(t, tier, res):
     from lib_trainer.detection_rules.email_detection import email_detection
     from lib_trainer.detection_rules.keyboard_walk import detect_keyboard_walk
@@ -256,7 +315,7 @@ def run_c13(t, tier, res):
                 if not got:
                     # letters that are neither their own lower-case form nor its upper-case form (U+0130, title-case
                     # digraphs such as U+01C5) cannot be rebuilt from a lower-case word and a U/L mask
-                    key = None if case_domain(s) else "letter-outside-one-to-one-case-domain"
+                    key = "letter-outside-one-to-one-case-domain" if unrebuildable(s) else None
                     res.violate("C13", "scored_string_never_guessed", {"string": s, "probability": p, "category": cat}, key=key)
                     if key is None:
                         return
@@ -278,7 +337,14 @@ def run_c13(t, tier, res):
             if r != first[s]:
                 res.violate("C13", "score_depends_on_call_history", {"string": s, "first": repr(first[s]), "later": repr(r)})
                 return
-    res.faults["scorer_rescored_in_other_order"] += len(cands)
+    # the command-line tool over the same candidates (file in, file out) must report what the library call reported
+    if not res.violations and t.chance(1, 3):
+        prob = scorer_cli(tr.rule_dir, opts["encoding"], cands, first, limit)
+        res.stats["scorer_cli_runs"] += 1
+        if prob:
+            res.violate("C13", prob[0], prob[1])
+            return
+    res.stats["rescored_in_other_order"] += len(cands)
     res.stats["candidates"] += len(cands)
     res.stats["promises_checked"] += promised
     res.nontrivial = digest_of([pws, opts, cands]) if promised else None
